@@ -130,8 +130,8 @@ CHECKS = {
              "Non-trivial = rain/evaporation acting on a non-empty store, or a series that both spills and falls below 10%; distinct = distinct case",
         assumptions=["release-curve slopes <= 1e-4 (m^3/s)/m^3 and zero release at zero volume, so that the model's minimum sub-timestep (6 s) can follow the draw-down (otherwise the kernel panics by design)",
                      "within a step the volume moves monotonically between its end values (constant forcing, autonomous 1-D dynamics)"],
-        quick=dict(stages=[st(1500, timeout=900)]),
-        thorough=dict(stages=[st(70000, shards=16, timeout=3500)]),
+        quick=dict(stages=[st(1500, run="TestStorageBalanceAndRelease", timeout=900), st(4, shards=3, run="TestStorageLongSeries", timeout=900)]),
+        thorough=dict(stages=[st(70000, shards=13, run="TestStorageBalanceAndRelease", timeout=3500), st(60, shards=3, run="TestStorageLongSeries", timeout=3500)]),
     ),
     "C16": dict(
         require={'linearity-checked': 0.02, '__nontrivial__': 0.1},
